@@ -30,9 +30,11 @@ struct State {
   std::map<int, SendLog> watched;                     // server side client descriptors
   std::vector<unsigned> permScript; size_t nextPerm = 0;  // readiness order / subset choices
   long epollCalls = 0, idleRounds = 0, advancedMs = 0, permuted = 0, truncated = 0;
-  long maxTimeoutSeen = 0;
+  long maxTimeoutSeen = 0, hupOnlyDropped = 0;
 };
 inline State& st() { static State s; return s; }
+inline void (*idleHookPtr)(int timeout) = nullptr;   // called when nothing is ready, before the virtual clock advances by 'timeout'
+
 inline void reset() { State& s = st(); s = State(); }
 }  // namespace srv
 
@@ -68,7 +70,12 @@ int __wrap_epoll_wait(int epfd, struct epoll_event* ev, int maxev, int timeout) 
   if (!s.active) return __real_epoll_wait(epfd, ev, maxev, timeout);
   ++s.epollCalls;
   int n = __real_epoll_wait(epfd, ev, maxev, 0);
+  // Events that carry only EPOLLHUP / EPOLLERR belong to descriptors registered with an empty mask (a suspended client whose
+  // peer hung up): the kernel reports them regardless of the mask, the library maps them to "no event" and polls again, i.e. it
+  // spins in real time. That is not covered by a listed property, but under virtual time it would be a livelock: drop them.
+  if (n > 0) { int k = 0; for (int i = 0; i < n; ++i) if (ev[i].events & (EPOLLIN | EPOLLOUT | EPOLLRDHUP)) ev[k++] = ev[i]; else ++s.hupOnlyDropped; n = k; }
   if (n <= 0) {
+    if (srv::idleHookPtr) srv::idleHookPtr(timeout);
     if (timeout > s.maxTimeoutSeen) s.maxTimeoutSeen = timeout;
     if (timeout > 0) { s.nowMs += timeout; s.advancedMs += timeout; }
     ++s.idleRounds;
